@@ -65,6 +65,8 @@ def cases(ctx):
             # a gate with 5-7 operands (odd and even counts: the fan-in limiter folds them in rounds)
             ops = r.sample(sorted(c.nodes()), min(len(c.nodes()), r.choice([5, 5, 6, 7])))
             c.add("w5", r.choice(["and", "or", "xor", "nand", "nor", "xnor"]), fanin=ops, output=True)
+        if not single and r.random() < 0.15:
+            c.add("kout", r.choice(["0", "1"]), output=True)           # a primary output that is a constant node
         if single:
             outs = sorted(c.outputs())
             keep = outs[-1]
